@@ -992,7 +992,7 @@ impl Prop for C07 {
         "C07"
     }
     fn rule(&self) -> String {
-        "(symbolic level + wire level: every value on the direct route and one representative per notation x feature on the other routes (thorough: all) is compiled into the wirecheck workspace, the generated constant / Holder default is encoded by rasn's DER codec and the bytes are compared with the X.690 encoding of the source value computed by a 100-line reference encoder) per value notation, complete inside: integers = the 53-point boundary set ∪ {±2^127 ends} (typed INTEGER, a fitting constrained INTEGER, a named-number type); TRUE/FALSE; NULL; cstrings = all strings of length <=2 over {a, space, \"\" (escaped quote), é, €} restricted to each of the 11 string types' alphabets plus a 40-character string, strings that are lexically time values and strings that span lines; bstrings = all of length 0..8 (BIT STRING) and all byte-multiples and a third of the partial-octet ones, zero-padded per X.680 23.5 / 23.6 (OCTET STRING); hstrings = all of 0..2 digits, every digit at every position of a 4-digit string, the 64 walking-one patterns; named-bit lists = all 32 subsets of {b0,b1,b3,b7,b15}; named numbers, enumerals; UTCTime / GeneralizedTime values in every form of the notation (with / without seconds, fractions with . and , , Z / offset / local, leap day) judged by an independent reading of both the ASN.1 and the RFC 3339 notation as instants and by the DER canonical form on the wire; OIDs of 2..4 arcs with every arc form (number, every X.660 well-known name under its root, name(number), leading value reference); CHOICE / SEQUENCE / SEQUENCE OF values to depth 2 (hand-picked, incl. one-member SEQUENCE values that read like OBJECT IDENTIFIER values) and systematically: every type tree of depth <= 2 over {INTEGER, BOOLEAN, NULL} with constructors SEQUENCE of 1..2 members (each required or OPTIONAL), CHOICE of 2 alternatives, SEQUENCE OF (depth 2 over the leaves and 8 depth-1 representatives; 1.3 k trees, thorough 2.4 k), nested types once as type assignments of their own and once inline, × every value with one component varied at a time (each alternative, OPTIONAL present / absent, lists of length 0..2), judged by a reference DER encoder that is generic in the type tree; values the compiler declines with a warning are counted as skipped by warning class; each × route {value assignment, through two type references, via a value reference, DEFAULT, DEFAULT via value reference, between lexical neighbours, DEFAULT of a component of the element type of a SEQUENCE OF; trees written inline also as DEFAULT of a component of that inline type}. Oracle: a symbolic evaluator of the expression forms the templates emit reduces the initialiser (const, LazyLock static, default fn body) to an abstract value compared with the model's (bit strings from named bits modulo trailing zeros). Non-trivial: compiled cleanly and the initialiser was evaluated.".into()
+        "(symbolic level + wire level: every value on the direct route and one representative per notation x feature on the other routes (thorough: all) is compiled into the wirecheck workspace, the generated constant / Holder default is encoded by rasn's DER codec and the bytes are compared with the X.690 encoding of the source value computed by a 100-line reference encoder) per value notation, complete inside: integers = the 53-point boundary set ∪ {±2^127 ends} (typed INTEGER, a fitting constrained INTEGER, a named-number type); TRUE/FALSE; NULL; cstrings = all strings of length <=2 over {a, space, \"\" (escaped quote), é, €} restricted to each of the 11 string types' alphabets plus a 40-character string, strings that are lexically time values and strings that span lines; bstrings = all of length 0..8 (BIT STRING) and all byte-multiples and a third of the partial-octet ones, zero-padded per X.680 23.5 / 23.6 (OCTET STRING); hstrings = all of 0..2 digits, every digit at every position of a 4-digit string, the 64 walking-one patterns; named-bit lists = all 32 subsets of {b0,b1,b3,b7,b15}; named numbers, enumerals; UTCTime / GeneralizedTime values in every form of the notation (with / without seconds, fractions with . and , , Z / offset / local, leap day) judged by an independent reading of both the ASN.1 and the RFC 3339 notation as instants and by the DER canonical form on the wire; OIDs of 2..4 arcs with every arc form (number, every X.660 well-known name under its root, name(number), leading value reference), OIDs of 3..10 arcs with one position at a time (first free, inner, last) given as name(number) or as one of the base-128 boundaries {0, 127, 128, 16383, 16384, 2^21, 2^32-1}, an arc given by an INTEGER value reference; CHOICE / SEQUENCE / SEQUENCE OF values to depth 2 (hand-picked, incl. one-member SEQUENCE values that read like OBJECT IDENTIFIER values) and systematically: every type tree of depth <= 2 over {INTEGER, BOOLEAN, NULL} with constructors SEQUENCE of 1..2 members (each required or OPTIONAL), CHOICE of 2 alternatives, SEQUENCE OF (depth 2 over the leaves and 8 depth-1 representatives; 1.3 k trees, thorough 2.4 k), nested types once as type assignments of their own and once inline, × every value with one component varied at a time (each alternative, OPTIONAL present / absent, lists of length 0..2), judged by a reference DER encoder that is generic in the type tree; values the compiler declines with a warning are counted as skipped by warning class; each × route {value assignment, through two type references, via a value reference, DEFAULT, DEFAULT via value reference, between lexical neighbours, DEFAULT of a component of the element type of a SEQUENCE OF; trees written inline also as DEFAULT of a component of that inline type}. Oracle: a symbolic evaluator of the expression forms the templates emit reduces the initialiser (const, LazyLock static, default fn body) to an abstract value compared with the model's (bit strings from named bits modulo trailing zeros). Non-trivial: compiled cleanly and the initialiser was evaluated.".into()
     }
     fn selftest(&self) -> Result<u64, String> {
         let f: syn::File = syn::parse_str("pub mod m { pub const A: u8 = 5; pub static O1: LazyLock<ObjectIdentifier> = LazyLock::new(|| Oid::const_new(&[1u32, 2u32]).to_owned()); pub static O3: LazyLock<ObjectIdentifier> = LazyLock::new(|| Oid::new(&[&***O1, &[7u32]].concat()).unwrap().to_owned()); pub static B: LazyLock<BitString> = LazyLock::new(|| [true, false].into_iter().collect()); pub static X: LazyLock<OctetString> = LazyLock::new(|| <OctetString as From<&'static [u8]>>::from(&[175, 9])); pub const C3: C = C::c(C2::z(())); pub static I: LazyLock<T2> = LazyLock::new(|| T2(T1(Integer::from(-2i128)))); }").map_err(|e| e.to_string())?;
@@ -1236,6 +1236,36 @@ pub fn cases(tier: Tier) -> Vec<Case> {
         // the referenced value is declared with a type reference to OBJECT IDENTIFIER
         add("oid", "OBJECT IDENTIFIER", "Oid2 ::= OBJECT IDENTIFIER\nroot Oid2 ::= { iso 3 6 }", "{ root 1 }".into(), Val::Oid(vec![1, 3, 6, 1]), "reference-to-value-of-named-oid-type".into());
         add("oid", "Oid2", "Oid2 ::= OBJECT IDENTIFIER\nroot Oid2 ::= { iso 3 6 }\nmid Oid2 ::= { root 1 4 }", "{ mid 1 311 }".into(), Val::Oid(vec![1, 3, 6, 1, 4, 1, 311]), "chained-reference-named-oid-type".into());
+        // OIDs of 3..10 arcs: every length x every position >= 2 x {name(number), each boundary of the base-128 encoding}
+        // (one position deviates at a time from the plain arc `7`)
+        let arc_bounds: [u32; 7] = [0, 127, 128, 16383, 16384, 2097152, 4294967295];
+        for n in 3usize..=10 {
+            for pos in 2..n {
+                let mut forms: Vec<(String, u32, String)> = vec![("sub(9)".into(), 9, "name(number)".into())];
+                for b in arc_bounds {
+                    forms.push((b.to_string(), b, format!("bound:{b}")));
+                }
+                if !tier.thorough() && pos != 2 && pos != n - 1 {
+                    forms.truncate(2);
+                }
+                for (txt, v, lab) in forms {
+                    let mut toks: Vec<String> = vec!["1".into(), "3".into()];
+                    let mut arcs: Vec<u32> = vec![1, 3];
+                    for i in 2..n {
+                        if i == pos {
+                            toks.push(txt.clone());
+                            arcs.push(v);
+                        } else {
+                            toks.push("7".into());
+                            arcs.push(7);
+                        }
+                    }
+                    add("oid", "OBJECT IDENTIFIER", "", format!("{{ {} }}", toks.join(" ")), Val::Oid(arcs), format!("arcs={n}|pos={}|{lab}", if pos == 2 { "first-free" } else if pos == n - 1 { "last" } else { "inner" }));
+                }
+            }
+        }
+        // an INTEGER value reference as a non-leading arc (X.680 32.3: DefinedValue as ObjIdComponent)
+        add("oid", "OBJECT IDENTIFIER", "six INTEGER ::= 6", "{ 1 3 six 1 }".into(), Val::Oid(vec![1, 3, 6, 1]), "integer-value-reference-arc".into());
         // ---- CHOICE / SEQUENCE / SEQUENCE OF
         let cp = "Cho ::= CHOICE { n INTEGER, b BOOLEAN, c Cho2 }\nCho2 ::= CHOICE { z NULL, m INTEGER (0..9) }\nSq ::= SEQUENCE { p INTEGER, q BOOLEAN, r Cho2 }\nLst ::= SEQUENCE OF INTEGER\nLstB ::= SEQUENCE OF BOOLEAN";
         add("choice", "Cho", cp, "n:5".into(), Val::Choice("n".into(), Box::new(Val::Int("5".into()))), "depth=1".into());
